@@ -17,6 +17,7 @@
 From Coq Require Import List ZArith NArith.
 From Astisub Require Import Kit.Base Kit.Str Model.Files Model.Ops Model.Srt Model.Vtt Model.Conv Model.ConvOps Model.Plain Proofs.FilesProofs.
 From Astisub Require Import Proofs.SrtProofs Proofs.VttDoc Proofs.ConvProofs Proofs.ConvOpsProofs Proofs.PlainProofs.
+From Astisub Require Import Model.PlainTtml Proofs.PlainTtmlProofs.
 Import ListNotations.
 
 (* SubRip file -> WebVTT file: cues, order, times to the millisecond, text per line *)
@@ -88,6 +89,10 @@ Print Assumptions C07_srt_plain_faithful.
 Theorem C07_vtt_plain_faithful : plain_faithful 1000000 vtt_plain_ok vtt_enc vtt_dec.
 Proof. exact vtt_plain_faithful. Qed.
 Print Assumptions C07_vtt_plain_faithful.
+(* TTML at byte level: the writer's bytes (default indent), the XML parser model, the tree reader *)
+Theorem C07_ttml_plain_faithful : plain_faithful 1000000 ttml_plain_ok ttml_enc ttml_dec.
+Proof. exact ttml_plain_faithful. Qed.
+Print Assumptions C07_ttml_plain_faithful.
 Example C07_plain_example : srt_plain_ok ex_plain /\ vtt_plain_ok (ptrunc 1000000 ex_plain).
 Proof. split; [exact ex_plain_srt_ok | exact ex_plain_vtt_ok]. Qed.
 
